@@ -246,6 +246,7 @@ def prequery(I, *objs):
     for o in objs:
         if isinstance(o, Obj) and o.cls.name == 'Container':
             vc.call(I, 'Container.has_liquid', [o])
+            vc.call(I, 'Container.get_substances', [o])
 
 
 def oblige_observers(I, label, obj):
@@ -265,6 +266,23 @@ def oblige_observers(I, label, obj):
     want = I.ev(_ANY_LIQ, env)
     I.oblige(f'observers[has_liquid/{label}]', boolz(got.value) == boolz(want), 'property',
              note=f'has_liquid() of the {label} is stale: it does not answer for its own contents')
+    # get_substances() of a result = the key set of ITS contents
+    from pyvc.symcoll import SymSubSet, SymMap
+    from pyvc.builtins_ import SetV
+    got = vc.call(I, 'Container.get_substances', [obj])
+    if got.kind != 'return':
+        I.oblige(f'observers[get_substances/{label}]', False, 'property', note=f'get_substances raised {got.exc.cls}')
+        return
+    cont, v = obj.fields['contents'], got.value
+    x = z3.Const('x!gs', Sub)
+    if isinstance(v, SymSubSet) and isinstance(cont, SymMap):
+        I.oblige(f'observers[get_substances/{label}]', v.mem[x] == cont.mem[x], 'property',
+                 note=f'get_substances() of the {label} is stale: it does not list the keys of its own contents')
+    elif isinstance(v, SetV) and isinstance(cont, dict):
+        I.oblige(f'observers[get_substances/{label}]', {str(getattr(k_, 'term', k_)) for k_ in v.items} == {str(getattr(k_, 'term', k_)) for k_ in cont},
+                 'property', note=f'get_substances() of the {label} is stale: it does not list the keys of its own contents')
+    else:
+        raise Unsupported(f'get_substances() returned {type(v).__name__} for contents {type(cont).__name__}')
 
 
 # Callee contracts a property RELIES on (modular verification: a caller is checked against the callee's contract, so the
